@@ -34,8 +34,16 @@ def corpus():
     yield witness_script()
 
 
-def probe_frames(rng, key, flows):
+def probe_frames(rng, key, flows, refused=()):
     out = []
+    if refused:
+        # a flow whose only data segments so far were refused (wrong acknowledgement): nothing of it was accepted, so
+        # it must be treated exactly like a flow never seen -- refused again, or accepted afresh with the cookie
+        s, d, sp, dp = rng.choice(list(refused))
+        ck = net.cookie(key, s, d, sp, dp)
+        out.append(net.frame_tcp(s, d, sp, dp, 1, rng.getrandbits(32), 0x18, b"GET / HTTP/1.0\r\n\r\n"))
+        out.append(net.frame_tcp(s, d, sp, dp, 1, (ck + 1) & 0xFFFFFFFF, 0x18, b"GET / HTTP/1.0\r\n\r\n"))
+        out.append(net.frame_tcp(s, d, sp, dp, 1, ck, 0x18, b"SSH-2.0-x\r\n"))
     if flows:
         s, d, sp, dp = rng.choice(flows)
         out.append(net.frame_tcp(s, d, sp, dp, 77, rng.getrandbits(32), 0x18, b"GET / HTTP/1.0\r\n\r\n"))
@@ -52,7 +60,7 @@ def probe_frames(rng, key, flows):
 
 def history_with_flows(rng, key, n):
     """A c09-style history, returning also the validated flows (so probes can target them)."""
-    fr, flows = [], []
+    fr, flows, refused = [], [], []
     for _ in range(n):
         v6 = rng.random() < 0.4
         s, d = gens.addr_pair(v6)
@@ -61,7 +69,10 @@ def history_with_flows(rng, key, n):
         if k <= 1:
             fr.append(net.frame_tcp(s, d, sport, dport, rng.getrandbits(32), rng.getrandbits(32), rng.randrange(512) | 2))
         elif k == 2:
+            if refused and rng.random() < 0.3:
+                s, d, sport, dport = rng.choice(refused)
             fr.append(net.frame_tcp(s, d, sport, dport, 1, rng.getrandbits(32), 0x18, b"GET / HTTP/1.0\r\n\r\n"))
+            refused.append((s, d, sport, dport))
         elif k in (3, 4):
             name, p, t, u = rng.choice([x for x in gens.app_seeds() if x[2]])
             cut = rng.randrange(len(p) + 1)
@@ -76,9 +87,18 @@ def history_with_flows(rng, key, n):
             ck = net.cookie(key, s, d, sport, dport)
             fr.append(net.frame_tcp(s, d, sport, dport, 5, rng.choice([6, (ck + 1) & 0xFFFFFFFF]),
                                     rng.choice([0x11, 0x04, 0x10, 0x14, 0x01, 0x02, 0x12]), rng.choice([b"", b"", b"payload"])))
+        elif k == 7 and flows and rng.random() < 0.5:
+            # the same ports between the IPv4-mapped IPv6 forms of an IPv4 flow's addresses (or back): another flow
+            s, d, sport, dport = rng.choice(flows)
+            if ":" not in s:
+                s, d = "::ffff:" + s, "::ffff:" + d
+                ck = net.cookie(key, s, d, sport, dport)
+                fr.append(net.frame_tcp(s, d, sport, dport, 9, rng.choice([rng.getrandbits(32), (ck + 1) & 0xFFFFFFFF]), 0x18,
+                                        rng.choice([b" more\r\n\r\n", b"GET / HTTP/1.0\r\n\r\n", b"\r\n\r\n"])))
         else:
             fr += gens.l2l3_noise(rng, 1)
-    return fr, flows
+    refused = [x for x in refused if x not in flows]
+    return fr, flows, refused
 
 
 def generate(tier, rng):
@@ -86,8 +106,8 @@ def generate(tier, rng):
     for i in range(n_hist):
         key = rng.choice([(0, 0), (1, 2), (rng.getrandbits(64), rng.getrandbits(64))])
         cfg = rng.choice(gens.cfgs(key=key))
-        h, flows = history_with_flows(rng, key, n)
-        for f in probe_frames(rng, key, flows):
+        h, flows, refused = history_with_flows(rng, key, n)
+        for f in probe_frames(rng, key, flows, refused):
             yield Script(cfg, h + [f], "history+probe")
     p1, p2 = pressure_script(rng, (1, 2))
     yield p1
